@@ -65,7 +65,7 @@ def treeOk (listing : List FsNode) : Bool := dirNamesDistinct (dirNames listing)
 /-! ## What is generated, in order -/
 
 /-- one generated file, before rendering -/
-inductive Item where
+inductive WItem where
   /-- the `index.rst` of directory `rel`, built from these (sorted) sub-directory and file names -/
   | index (rel : List Str) (subdirs files : List Str)
   /-- the page of the file `name` with this content in directory `rel` -/
@@ -73,12 +73,12 @@ inductive Item where
 deriving Repr, DecidableEq, Inhabited
 
 /-- where the item is written, relative to the output directory -/
-def Item.path : Item → List Str
+def WItem.path : WItem → List Str
   | .index rel _ _ => rel ++ [lit "index.rst"]
   | .page rel name _ => rel ++ [stem name ++ lit ".rst"]
 
 /-- the text of the item, or the error its generation raises -/
-def Item.text (c : WalkCfg) (pfx : Str) : Item → Except Err Str
+def WItem.text (c : WalkCfg) (pfx : Str) : WItem → Except Err Str
   | .index rel subdirs files => indexPage c pfx rel subdirs files
   | .page rel name content => Cminx.page c (some pfx) (joinWith ['/'] (rel ++ [name])) content
 
@@ -87,62 +87,62 @@ def okText : Except Err Str → Str
   | .error _ => []
 
 /-- the text of an item that renders -/
-def Item.textD (c : WalkCfg) (pfx : Str) (it : Item) : Str := okText (it.text c pfx)
+def WItem.textD (c : WalkCfg) (pfx : Str) (it : WItem) : Str := okText (it.text c pfx)
 
-def Item.write (c : WalkCfg) (pfx : Str) (it : Item) : Write := ⟨it.path, it.textD c pfx⟩
+def WItem.write (c : WalkCfg) (pfx : Str) (it : WItem) : Write := ⟨it.path, it.textD c pfx⟩
 
-def Item.isPage : Item → Bool
+def WItem.isPage : WItem → Bool
   | .page _ _ _ => true
   | .index _ _ _ => false
 
-def Item.page? : Item → Option (List Str × Str × Str)
+def WItem.page? : WItem → Option (List Str × Str × Str)
   | .page rel name content => some (rel, name, content)
   | .index _ _ _ => none
 
-def Item.index? : Item → Option (List Str × List Str × List Str)
+def WItem.index? : WItem → Option (List Str × List Str × List Str)
   | .index rel subdirs files => some (rel, subdirs, files)
   | .page _ _ _ => none
 
 /-- the CMake files among `names` (a sorted list of file names of `listing`), each with its content -/
-def dirPages (rel : List Str) (listing : List FsNode) (names : List Str) : List Item :=
-  names.filterMap fun f => if isCMakeName f then (findFile f listing).map (Item.page rel f) else none
+def dirPages (rel : List Str) (listing : List FsNode) (names : List Str) : List WItem :=
+  names.filterMap fun f => if isCMakeName f then (findFile f listing).map (WItem.page rel f) else none
 
 /-- what is generated for the directory `rel` itself: nothing if auto-exclusion is on and it directly holds no
     non-excluded `*.cmake` file; otherwise its index followed by the pages of its non-excluded CMake files
     in sorted name order -/
-def dirItems (c : WalkCfg) (excl : List Str → Bool → Bool) (rel : List Str) (listing : List FsNode) : List Item :=
+def dirItems (c : WalkCfg) (excl : List Str → Bool → Bool) (rel : List Str) (listing : List FsNode) : List WItem :=
   if c.autoExclude && !hasCMake excl rel listing then []
   else .index rel (sortStrs (survivingDirs c excl rel listing)) (sortStrs (keptFiles excl rel listing))
        :: dirPages rel listing (sortStrs (keptFiles excl rel listing))
 
 mutual
 /-- what is generated for the entry `x` of directory `rel` when walking into sub-directories -/
-def nodeLayout (c : WalkCfg) (excl : List Str → Bool → Bool) (rel : List Str) : FsNode → List Item
+def nodeLayout (c : WalkCfg) (excl : List Str → Bool → Bool) (rel : List Str) : FsNode → List WItem
   | .file _ _ => []
   | .dir n ch =>
     if survives c excl rel n ch then
       dirItems c excl (rel ++ [n]) ch ++ (if c.recursive then subsLayout c excl (rel ++ [n]) ch else [])
     else []
 /-- … for all entries of a listing, in listing order -/
-def subsLayout (c : WalkCfg) (excl : List Str → Bool → Bool) (rel : List Str) : List FsNode → List Item
+def subsLayout (c : WalkCfg) (excl : List Str → Bool → Bool) (rel : List Str) : List FsNode → List WItem
   | [] => []
   | x :: xs => nodeLayout c excl rel x ++ subsLayout c excl rel xs
 end
 
 /-- everything generated for the directory `rel` with this listing, in the order it is generated -/
-def layoutOf (c : WalkCfg) (excl : List Str → Bool → Bool) (rel : List Str) (listing : List FsNode) : List Item :=
+def layoutOf (c : WalkCfg) (excl : List Str → Bool → Bool) (rel : List Str) (listing : List FsNode) : List WItem :=
   dirItems c excl rel listing ++ (if c.recursive then subsLayout c excl rel listing else [])
 
 /-- the processed CMake files in processing order: (relative directory, file name, content) -/
 def pagesOf (c : WalkCfg) (excl : List Str → Bool → Bool) (rel : List Str) (listing : List FsNode) :
     List (List Str × Str × Str) :=
-  (layoutOf c excl rel listing).filterMap Item.page?
+  (layoutOf c excl rel listing).filterMap WItem.page?
 
 /-- the directories that get an index page: (relative directory, sorted surviving sub-directories,
     sorted non-excluded files) -/
 def indexesOf (c : WalkCfg) (excl : List Str → Bool → Bool) (rel : List Str) (listing : List FsNode) :
     List (List Str × List Str × List Str) :=
-  (layoutOf c excl rel listing).filterMap Item.index?
+  (layoutOf c excl rel listing).filterMap WItem.index?
 
 /-- relative path of a processed file as CMinx spells it: components joined by `/` -/
 def relPath (p : List Str × Str × Str) : Str := joinWith ['/'] (p.1 ++ [p.2.1])
